@@ -199,7 +199,7 @@ def run(ctx):
             PB[0] = PA[-1]
         if label == "rational":
             WA = rand_weights(rng, na, rng.choice(["pos", "none"]))
-            WB = rand_weights(rng, nb, "pos")
+            WB = rand_weights(rng, nb, rng.choice(["pos", "pos", "neg"]))
         if label == "mismatch":
             UB = [x + F(1, 3) for x in UB]
         run_case(ctx, ser(dict(kind="pair", label=label, A=dict(U=UA, P=PA, W=WA), B=dict(U=UB, P=PB, W=WB))))
